@@ -69,8 +69,15 @@ def unit_names(chk, name="c19-names"):
         keys.append(k)
     w_ = vlib.workdir(name)
     inp, out = os.path.join(w_, "q.ndjson"), os.path.join(w_, "rec.ndjson")
-    vlib.write_ndjson(inp, qs)
+    vlib.write_ndjson(inp, qs + [")"] * 3)
     vlib.conform(["c19-record", "--in", inp, "--out", out, "--any", vlib.conform_bin("release", "any"), "--ids", lang.IDS])
+    # frame and mark of the diagnostic renderer, measured from the block printed for `)` (their placement is Cli.tla's)
+    glyphs = {"corner": "\u250c\u2500", "bar": "\u2502", "caret": "^"}
+    for r in vlib.read_ndjson(out)[len(qs):]:
+        so = r["stdout"]
+        if r["mode"] == "default" and len(so) >= 5 and " <in>:" in so[1] and so[2].strip() and so[4].strip().startswith(so[2].strip() + " "):
+            bar = so[2].strip()
+            glyphs = {"corner": so[1].strip().split(" <in>:")[0], "bar": bar, "caret": so[4].strip()[len(bar) + 1:].lstrip(" ")[:1]}
     names = {k: {"sg": "?" + k, "pl": "?" + k} for k in v.units}
     for k, r in zip(keys, vlib.read_ndjson(out)):
         if len(r["results"]) == 1 and r["results"][0]["k"] == "val" and len(r["results"][0]["u"]) == 1 and r["results"][0]["u"][0][0] == k:
@@ -82,7 +89,7 @@ def unit_names(chk, name="c19-names"):
     with open(np_, "w") as f:
         json.dump(names, f, ensure_ascii=False)
     with open(sp_, "w") as f:
-        json.dump({"dot": "\u22c5", "sup": ["\u2070", "\u00b9", "\u00b2", "\u00b3", "\u2074", "\u2075", "\u2076", "\u2077", "\u2078", "\u2079"], "micro": "\u03bc"}, f)
+        json.dump(dict({"dot": "\u22c5", "sup": ["\u2070", "\u00b9", "\u00b2", "\u00b3", "\u2074", "\u2075", "\u2076", "\u2077", "\u2078", "\u2079"], "micro": "\u03bc"}, **glyphs), f)
     measured = sum(1 for k in names if not names[k]["sg"].startswith("?"))
     return np_, sp_, measured
 
@@ -111,13 +118,16 @@ def run(chk):
         chk.violation("any %s %r: %s" % ("" if rec.get("mode") == "default" else "--" + rec.get("mode"), rec.get("text"), ",".join(m["problems"])),
                       {"kind": "cli", "text": rec.get("text"), "mode": rec.get("mode"), "library_results": rec.get("results"), "library_descriptions": rec.get("descs"),
                        "stdout": rec.get("stdout"), "stderr": rec.get("stderr"), "exit": rec.get("exit"),
-                       "what": "standard output of the binary is not the composition of the library's results the specification prescribes"})
+                       "what": ("the diagnostic block of an error does not show the library's message at the library's range (Cli.tla, DiagBlock)" if "diagnostic" in m["problems"] else
+                                "standard output of the binary is not the composition of the library's results the specification prescribes")})
     syntax_dumps(chk, rnd, queries, p, np_, sp_)
     recs = vlib.read_ndjson(out)
     for r in recs:
         kinds = {x["k"] for x in r["results"]}
         if len(r["results"]) >= 2 or (r["results"] and r["results"][0]["k"] == "val" and r["results"][0]["unit_plural"]):
             chk.nontrivial([r["mode"], r["text"]])
+    chk.cov["diagnostic_blocks_prescribed_in_full"] = sum(1 for r in recs if r.get("plain") for x in r["results"] if x["k"] == "err")
+    chk.cov["distinct_error_ranges_underlined"] = len({(x["s"], x["e"]) for r in recs if r.get("plain") for x in r["results"] if x["k"] == "err"})
     chk.cov["exhaustive"] = False
     chk.cov["rule"] = ("one evaluation = one run of the real binary (modes default / --exact / --describe / the flag behind the query, in rotation; --syntax in a pass of its own) compared with the library's in-process results; "
                        "queries: numeric expressions, quantities over the whole vocabulary, fact phrases, comma-separated lists with values and errors, "
@@ -125,7 +135,9 @@ def run(chk):
     for r in recs[:3]:
         chk.sample({"mode": r["mode"], "query": r["text"], "stdout": r["stdout"][:3]})
     chk.assumptions += ["the decimal rendering (C08) and the spelling of each single unit (singular / plural) are taken from the library; blank, plural rule, prefix symbol, "
-                        "superscript powers, order and separators of a compound unit are composed by the specification (UnitDisplay.tla)", "the binary is run with NO_COLOR=1 and a private data directory"]
+                        "superscript powers, order and separators of a compound unit are composed by the specification (UnitDisplay.tla)", "the binary is run with NO_COLOR=1 and a private data directory",
+                        "the frame and mark characters of a diagnostic block are measured from the block the tool prints for `)`; the block is prescribed in full (place, echo of the query, "
+                        "underline of exactly the library's range, message) for queries that are one line of printable ASCII, otherwise only its first line"]
 
 
 def syntax_dumps(chk, rnd, queries, p, np_, sp_):
